@@ -246,6 +246,8 @@ pub struct Inner {
 	pub group_of: Vec<u32>,
 	pub trace_cap: usize,
 	pub ops_after_abort: u32,
+	/// logical threads whose user panic is unwinding right now (set by the interpreter)
+	pub unwinding: Vec<Tid>,
 	/// transient phantom holds that were released because a thread blocked on them
 	pub released_transients: Vec<(Lid, Tid)>,
 }
@@ -333,6 +335,7 @@ impl Exec {
 				group_of: vec![u32::MAX; nlocks],
 				trace_cap: 6_000,
 				ops_after_abort: 0,
+				unwinding: Vec::new(),
 				released_transients: Vec::new(),
 			}),
 			cv: Condvar::new(),
@@ -594,7 +597,17 @@ pub fn raw_op(lid: Lid, op: Op) -> bool {
 	};
 	let d = exec.raw_op_inner(tid, lid, op);
 	match d {
-		Decision::Done(b) => b,
+		Decision::Done(b) => {
+			// while a panic unwinds, what the library does right AFTER a release
+			// (setting a poison flag, resetting its bookkeeping) is not a raw
+			// operation, so the scheduling point in front of the next raw
+			// operation would come too late to separate the two: another thread
+			// may run between the release and whatever follows it
+			if op.is_release() && (std::thread::panicking() || exec.is_unwinding(tid)) {
+				let _ = exec.yield_point(tid);
+			}
+			b
+		}
 		Decision::PanicAbort => {
 			if std::thread::panicking() {
 				true
@@ -986,6 +999,19 @@ impl Exec {
 		}
 		let mut w = false;
 		self.sched_point(g, tid, Pending::Start, &mut w).map(|_| ())
+	}
+
+	/// the interpreter announces that a user panic of `tid` starts / has finished unwinding
+	pub fn set_unwinding(&self, tid: Tid, on: bool) {
+		let mut g = self.lock();
+		g.unwinding.retain(|t| *t != tid);
+		if on {
+			g.unwinding.push(tid);
+		}
+	}
+
+	pub fn is_unwinding(&self, tid: Tid) -> bool {
+		self.lock().unwinding.contains(&tid)
 	}
 
 	pub fn yield_point(&self, tid: Tid) -> Result<(), ()> {
